@@ -276,6 +276,35 @@ def search(rep, diffs, fails):
         rep.violation({'kind': 'property-failure', 'program': line.split('|')[1], 'application': aid, 'why': why}, found=True)
     if fails:
         return
+    # divergence only: look for an application of the IMPLEMENTATION on the diverging programs (also at larger limits)
+    # that is not a run of the real machine
+    progs = []
+    for cid, line, a, b in diffs[:40]:
+        f = line.split('|')
+        if len(f) >= 3 and f[1] not in progs:
+            progs.append(f[1])
+    extra = [(f'x{i}_{lim}', p, lim) for i, p in enumerate(progs) for lim in (300, 1000, 3000)]
+    if extra:
+        hx = core.run_bbh([f'{cid}|provertrace|{p}|{lim}' for cid, p, lim in extra])
+        _, allx = collect_apps(extra, hx, 0)
+        allx = [a for a in allx if cost(a[3], a[6], a[4]) <= 30_000_000][:4000]
+        ox = core.run_bbm([f'{aid}|replay|{p}|{st}|{before}|{st}|{after}|300000' for aid, p, st, before, rule, times, after in allx])
+        bad = [(a, ox.get(a[0], '')) for a in allx if ox.get(a[0], '').startswith('stopped')]
+        flx, _ = boundary_checks(allx, 'quick')
+        model = core.run_bbm([f'{cid}|provertrace|{p}|{lim}' for cid, p, lim in extra])
+        same = {cid for cid, p, lim in extra if model.get(cid) == hx.get(cid)}
+        for a, res in bad[:2]:
+            if a[0].split('.')[0] not in same:
+                rep.violation({'kind': 'property-failure', 'program': a[1], 'application': ' '.join(a[2:]),
+                               'why': f'state {a[2]}: {a[3]} --{a[4]} x{a[5]}--> {a[6]} is NOT reached: the real machine halts or spins '
+                                      f'out after {res.split(":")[1]} cycles (verified replay); the faithful model does not make this application'},
+                              found=True)
+                return
+        for fl in flx[:2]:
+            if fl[0].split('.')[0] not in same:
+                rep.violation({'kind': 'property-failure', 'program': fl[1][1], 'why': f14_text(fl).replace('F14 class: ', '')
+                               + '; the faithful model does not make this application'}, found=True)
+                return
     cid, line, a, b = diffs[0]
     rep.violation({'kind': 'correspondence', 'case': line, 'impl': a, 'model': b, 'divergences': len(diffs),
                    'correspondence': 'bbh run_prover application trace = ProverModel.run_prover_trace'}, found=False)
